@@ -38,6 +38,7 @@ CONSTANTS EB,        \* epoch blocks (20 in the Tester)
           Durs,      \* months offered to Buy / BuyAdvance
           WithRelay, \* generator: relay payments (C11)
           WithDrain, \* buyers may spend their tokens elsewhere
+          Acts,      \* action kinds enabled in Next (exhaustive configs may restrict them)
           PriceVar   \* price variants of a new plan version: price = base + 10 * n
 
 VARIABLES now,      \* block height
@@ -465,13 +466,13 @@ Init == /\ now = EB /\ tm = 0
         /\ mb = 0 /\ pay = NoPay /\ owed = [c \in Consumers |-> 0] /\ nmonths = 0 /\ panicked = FALSE /\ nops = 0 /\ hist = <<>>
 
 CreatorsOf(c) == {c} \cup ThirdParty
-Ops == \/ \E p \in PlanIdx, n \in PriceVar : PlanAdd(p, n)
-       \/ \E p \in PlanIdx : PlanDel(p)
-       \/ \E c \in Consumers : \E cr \in CreatorsOf(c), p \in PlanIdx, d \in Durs, au \in BOOLEAN : Buy(cr, c, p, d, au)
-       \/ \E c \in Consumers : \E cr \in CreatorsOf(c), p \in PlanIdx, d \in Durs : BuyAdvance(cr, c, p, d)
-       \/ \E c \in Consumers : \E cr \in CreatorsOf(c), en \in BOOLEAN, p \in PlanIdx \cup {""} : AutoRenew(cr, c, en, p)
+Ops == \/ ("planadd" \in Acts /\ \E p \in PlanIdx, n \in PriceVar : PlanAdd(p, n))
+       \/ ("plandel" \in Acts /\ \E p \in PlanIdx : PlanDel(p))
+       \/ ("buy" \in Acts /\ \E c \in Consumers : \E cr \in CreatorsOf(c), p \in PlanIdx, d \in Durs, au \in BOOLEAN : Buy(cr, c, p, d, au))
+       \/ ("adv" \in Acts /\ \E c \in Consumers : \E cr \in CreatorsOf(c), p \in PlanIdx, d \in Durs : BuyAdvance(cr, c, p, d))
+       \/ ("auto" \in Acts /\ \E c \in Consumers : \E cr \in CreatorsOf(c), en \in BOOLEAN, p \in PlanIdx \cup {""} : AutoRenew(cr, c, en, p))
        \/ (WithDrain /\ \E cr \in Buyers : Drain(cr, 50))
-       \/ Block \/ Epoch \/ Stale \/ Month
+       \/ ("block" \in Acts /\ Block) \/ ("epoch" \in Acts /\ Epoch) \/ ("stale" \in Acts /\ Stale) \/ Month
 Next == nops < MaxOps /\ nops' = nops + 1 /\ Ops
 Spec == Init /\ [][Next]_vars
 
@@ -513,6 +514,16 @@ Holders(p, v) == SumF([c \in Consumers |-> Holds(c, p, v)], Consumers) + (IF pl[
 RefsCoverHolders == \A p \in PlanIdx : \A v \in DOMAIN pl[p] : pl[p][v].ref >= Holders(p, v)
 HeldVersionsExist == \A c \in Consumers : LET n == NewestV(c) IN
                      (n # NONE /\ sv[c][n].del = INF) => sv[c][n].d.pb \in DOMAIN pl[sv[c][n].d.pi]
+\* Coverage target (reachability query, used to let TLC construct a history): an auto-renewal that would move to
+\* another plan version fails for lack of funds while another consumer still holds the old version
+Target == \E c \in Consumers, o \in Consumers :
+            /\ Len(hist) > 0 /\ hist[Len(hist)].a = "month"      \* (needs GenHist) reached by the failing month tick itself
+            /\ c # o /\ NewestV(c) # NONE
+            /\ LET e == sv[c][NewestV(c)]  s == e.d IN
+                 /\ e.del < INF /\ s.left = 0 /\ s.auto # "none"
+                 /\ LET lv == FindV(pl[s.auto], now, now) IN lv # NONE /\ (s.auto # s.pi \/ lv # s.pb)
+                 /\ Holds(o, s.pi, s.pb) >= 1
+NoTarget == ~Target
 \* C12
 CuBounded == \A c \in Consumers : SubOn(c) => (CurSub(c).cuL >= 0 /\ CurSub(c).cuL <= CurSub(c).cuT)
 \* (a subscription whose removal is pending until the next epoch may show left = 0)
